@@ -296,3 +296,62 @@ Example real_model_followers_share_context_error :
   map (fun th => map (fun r => (rval r, rerr r, rfresh r, rruns r)) (tres th)) (threads s)
   = [[(101%Z, 30%Z, true, 1)]; [(101%Z, 30%Z, false, 0)]; [(101%Z, 30%Z, false, 0)]].
 Proof. vm_compute. split; reflexivity. Qed.
+
+(* (h) The shared result handed out BY REFERENCE to the leader's own variable (seeded change
+   C07-7, cache node doTake: the closure returns the leading caller's destination pointer and
+   joiners copy from it afterwards).  A thread reuses one destination variable for all its calls,
+   so at any moment it holds the result of the thread's latest completed call; a joiner that is
+   woken but copies late reads whatever is there then. *)
+Definition aliased_step (s : state) (t : nat) : option state :=
+  match nth_error (threads s) t with
+  | Some th =>
+    match cur_op th, tpc th with
+    | Some o, PWait c =>
+      match ogrp o with
+      | GSF =>
+        if cdone (heap s c) then
+          match nth_error (threads s) (fst (clead (heap s c))) with
+          | Some thL =>
+            match last (map Some (tres thL)) None with
+            | Some r => (* the leader's variable as it is NOW *)
+              Some (mkState (S (now s)) (calls s) (heap s) (nextc s) (resources s) (ncreated s)
+                      (upd_nth (threads s) t (finish th (rval r) (rerr r) false c (now s))))
+            | None => step s t
+            end
+          | None => step s t
+          end
+        else None
+      | _ => step s t
+      end
+    | _, _ => step s t
+    end
+  | None => None
+  end.
+
+(* thread 0 loads key 1 (101) with thread 1 joined; thread 0 returns and reuses its variable for
+   key 2 (102); only then does thread 1 copy: it receives 102 for key 1 - the row of another key,
+   a value that no execution for key 1 produced *)
+Theorem result_by_reference_to_leaders_cell_refuted :
+  exists scripts sched t th r o,
+    let s := run aliased_step (init scripts) sched in
+    nth_error (threads s) t = Some th /\ In r (tres th) /\
+    nth_error (tscript th) (rop r) = Some o /\ ogrp o = GSF /\ okey o = 1%Z /\
+    rval r = 102%Z /\
+    forall sc o', In sc scripts -> In o' sc -> okey o' = 1%Z -> oval o' <> 102%Z.
+Proof.
+  exists [[mkOp GSF 1 101 0; mkOp GSF 2 102 0]; [mkOp GSF 1 201 0]],
+         [0;0;0; 1;1; 0;0;0; 0;0;0;0;0;0; 1], 1.
+  eexists. eexists. eexists. cbn zeta.
+  split; [vm_compute; reflexivity|]. split; [left; reflexivity|]. split; [reflexivity|].
+  split; [reflexivity|]. split; [reflexivity|]. split; [reflexivity|].
+  intros sc o' [<-|[<-|[]]] Ho' Hk Hv.
+  - destruct Ho' as [<-|[<-|[]]]; cbn in *; discriminate.
+  - destruct Ho' as [<-|[]]; cbn in *; discriminate.
+Qed.
+
+(* the real model on the same schedule: thread 1 gets the value the overlapping execution produced *)
+Example real_model_joiner_gets_produced_value :
+  map (fun th => map (fun r => (rval r, rfresh r)) (tres th))
+      (threads (exec [[mkOp GSF 1 101 0; mkOp GSF 2 102 0]; [mkOp GSF 1 201 0]] [0;0;0; 1;1; 0;0;0; 0;0;0;0;0;0; 1]))
+  = [[(101%Z, true); (102%Z, true)]; [(101%Z, false)]].
+Proof. vm_compute. reflexivity. Qed.
